@@ -143,6 +143,7 @@ fn gen_softmax(g: &mut Gen) {
     g.op("softmax - via=cloned".to_string());
     let max_n = if g.thorough { 5 } else { 4 };
     for n in 1..=max_n {
+        g.op("@ fp".to_string());
         // n distinct values sorted by the order the code sees (signed representative)
         let mut pool: Vec<Fp> = vec![];
         while pool.len() < n {
@@ -169,6 +170,7 @@ fn gen_softmax(g: &mut Gen) {
         }
     }
     // values around the sign boundary of the order and random longer lists
+    g.op("@ fp".to_string());
     let half = P / 2;
     g.op(format!("softmax {},{},{},{} via=cloned", half, half + 1, 0, P - 1));
     for _ in 0..(if g.thorough { 60 } else { 15 }) {
@@ -180,6 +182,7 @@ fn gen_softmax(g: &mut Gen) {
     }
     // f64 sanity oracle on large magnitudes (finite, non-negative, sums to ~1); never compared
     // with the model beyond the list length
+    g.op("@ fp".to_string());
     for v in [
         "1000,1001,999", "-1000,-1001,-999", "1e308,1e308", "-1e308,1e308,0", "710,0,-710", "0,0,0,0",
         "1e-300,2e-300", "745.2,745.1,-745.2", "88.8,-88.8,1e5", "123456789,123456788.5",
@@ -191,7 +194,7 @@ fn gen_softmax(g: &mut Gen) {
 
 pub fn gen(g: &mut Gen) {
     gen_lists(g);
-    let (ms, mf) = if g.thorough { (8, 6) } else { (5, 4) };
+    let (ms, mf) = if g.thorough { (10, 7) } else { (5, 4) };
     for s in 1..=ms {
         for f in 1..=mf {
             gen_cov_case(g, "fp", s, f);
